@@ -179,6 +179,20 @@ func (s *Server) DefByKind(apiVersion, kind string) *ResourceDef {
 
 func (s *Server) Defs() []*ResourceDef { return s.defs }
 
+// sameStore: two definitions that differ only in version serve the same stored objects
+// (a resource with several served versions and no schema differences).
+func sameStore(a, b *ResourceDef) bool { return a == b || (a.Group == b.Group && a.Resource == b.Resource) }
+
+// present renders a stored object at the version it is read through.
+func present(d *ResourceDef, obj map[string]any) map[string]any {
+	if obj != nil {
+		if _, isStatus := obj["status"].(string); !(isStatus && obj["kind"] == "Status") {
+			obj["apiVersion"] = d.APIVersion()
+		}
+	}
+	return obj
+}
+
 func okey(d *ResourceDef, ns, name string) string {
 	return d.Group + "/" + d.Resource + "|" + ns + "|" + name
 }
@@ -228,7 +242,7 @@ func (s *Server) emit(d *ResourceDef, typ string, obj map[string]any) {
 	ev := simEvent{rv: s.rv, def: d, typ: typ, obj: CopyMap(obj), ns: nsOf(obj), name: nameOf(obj)}
 	s.events = append(s.events, ev)
 	for _, sub := range s.subs {
-		if sub.closed || sub.def != d {
+		if sub.closed || !sameStore(sub.def, d) {
 			continue
 		}
 		if sub.ns != "" && sub.ns != ev.ns {
@@ -1035,7 +1049,7 @@ func (s *Server) serveLocked(r *Request) (any, int, *apiErr) {
 			return nil, 0, e
 		}
 		r.Code = code
-		return obj, code, nil
+		return present(d, obj), code, nil
 	}
 	if r.Name != "" {
 		if cur, ok := s.objs[okey(d, ns, r.Name)]; ok {
@@ -1066,7 +1080,7 @@ func (s *Server) serveLocked(r *Request) (any, int, *apiErr) {
 		items := s.list(d, ns, sel)
 		arr := make([]any, len(items))
 		for i, it := range items {
-			arr[i] = it
+			arr[i] = present(d, it)
 		}
 		r.Code = 200
 		return map[string]any{"apiVersion": d.APIVersion(), "kind": d.Kind + "List", "metadata": map[string]any{"resourceVersion": strconv.FormatInt(s.rv, 10)}, "items": arr}, 200, nil
@@ -1210,7 +1224,7 @@ func (s *Server) serveWatch(req *http.Request, r *Request) (*http.Response, erro
 	// replay history after 'from'
 	var backlog []simEvent
 	for _, ev := range s.events {
-		if ev.def == d && ev.rv > from && (ns == "" || ev.ns == ns) {
+		if sameStore(ev.def, d) && ev.rv > from && (ns == "" || ev.ns == ns) {
 			backlog = append(backlog, ev)
 		}
 	}
@@ -1229,7 +1243,7 @@ func (s *Server) serveWatch(req *http.Request, r *Request) (*http.Response, erro
 			pw.Close()
 		}()
 		write := func(ev simEvent) bool {
-			b, _ := json.Marshal(map[string]any{"type": ev.typ, "object": ev.obj})
+			b, _ := json.Marshal(map[string]any{"type": ev.typ, "object": present(d, CopyMap(ev.obj))})
 			b = append(b, '\n')
 			_, err := pw.Write(b)
 			return err == nil
@@ -1283,6 +1297,19 @@ func (s *Server) OpenWatches() map[string]int {
 	for _, sub := range s.subs {
 		if !sub.closed {
 			out[sub.def.Resource]++
+		}
+	}
+	return out
+}
+
+// OpenWatchesByVersion is OpenWatches keyed "resource.apiVersion".
+func (s *Server) OpenWatchesByVersion() map[string]int {
+	s.mu.Lock()
+	defer s.mu.Unlock()
+	out := map[string]int{}
+	for _, sub := range s.subs {
+		if !sub.closed {
+			out[sub.def.Resource+"."+sub.def.APIVersion()]++
 		}
 	}
 	return out
